@@ -127,6 +127,34 @@ FUNCS = {
                          direct=lambda a: expect(AptosAddrDecoder.DecodeAddr(AptosAddrEncoder.EncodeKey(a[1], trim_zeroes=bool(a[0]))),
                                                  hashlib.sha3_256(a[1] + b"\x00").digest(), "APTOS")),
     "aptos_decode": Func(model=lambda m, a: m.call("aptos_decode", a[0]), impl=lambda a: AptosAddrDecoder.DecodeAddr(a[0])),
+    # ---- Base32 / SS58 families (Model/AddrText.v on the codec models of C11)
+    "algo_encode": Func(model=lambda m, a: m.call("algo_encode", a[0]), impl=lambda a: AlgoAddrEncoder.EncodeKey(a[0]),
+                        direct=lambda a: expect(AlgoAddrDecoder.DecodeAddr(AlgoAddrEncoder.EncodeKey(a[0])), a[0], "ALGO")),
+    "algo_decode": Func(model=lambda m, a: m.call("algo_decode", a[0]), impl=lambda a: AlgoAddrDecoder.DecodeAddr(a[0])),
+    "xlm_encode": Func(model=lambda m, a: m.call("xlm_encode", a[0], a[1]),
+                       impl=lambda a: XlmAddrEncoder.EncodeKey(a[1], addr_type=XlmAddrTypes(a[0])),
+                       direct=lambda a: expect(XlmAddrDecoder.DecodeAddr(XlmAddrEncoder.EncodeKey(a[1], addr_type=XlmAddrTypes(a[0])),
+                                                                         addr_type=XlmAddrTypes(a[0])), a[1], "XLM")),
+    "xlm_decode": Func(model=lambda m, a: m.call("xlm_decode", a[0], a[1]),
+                       impl=lambda a: XlmAddrDecoder.DecodeAddr(a[1], addr_type=XlmAddrTypes(a[0]))),
+    # [pub_c, pub_u]
+    "fil_encode": Func(model=lambda m, a: m.call("fil_encode", a[1]), impl=lambda a: FilSecp256k1AddrEncoder.EncodeKey(a[0]),
+                       direct=lambda a: expect(FilSecp256k1AddrDecoder.DecodeAddr(FilSecp256k1AddrEncoder.EncodeKey(a[0])),
+                                               hashlib.blake2b(a[1], digest_size=20).digest(), "FIL")),
+    "fil_decode": Func(model=lambda m, a: m.call("fil_decode", a[0]), impl=lambda a: FilSecp256k1AddrDecoder.DecodeAddr(a[0])),
+    "nano_encode": Func(model=lambda m, a: m.call("nano_encode", a[0]), impl=lambda a: NanoAddrEncoder.EncodeKey(a[0]),
+                        direct=lambda a: expect(NanoAddrDecoder.DecodeAddr(NanoAddrEncoder.EncodeKey(a[0])), a[0], "NANO")),
+    "nano_decode": Func(model=lambda m, a: m.call("nano_decode", a[0]), impl=lambda a: NanoAddrDecoder.DecodeAddr(a[0])),
+    "nim_encode": Func(model=lambda m, a: m.call("nim_encode", a[0]), impl=lambda a: NimAddrEncoder.EncodeKey(a[0]),
+                       direct=lambda a: expect(NimAddrDecoder.DecodeAddr(NimAddrEncoder.EncodeKey(a[0])),
+                                               hashlib.blake2b(a[0], digest_size=32).digest()[:20], "NIM")),
+    "nim_decode": Func(model=lambda m, a: m.call("nim_decode", a[0]), impl=lambda a: NimAddrDecoder.DecodeAddr(a[0])),
+    # [format, pub32]
+    "substrate_encode": Func(model=lambda m, a: m.call("substrate_encode", a[0], a[1]),
+                             impl=lambda a: SubstrateEd25519AddrEncoder.EncodeKey(a[1], ss58_format=a[0]),
+                             direct=lambda a: _substrate_direct(a)),
+    "substrate_decode": Func(model=lambda m, a: m.call("substrate_decode", 2, a[0], a[1]),
+                             impl=lambda a: SubstrateEd25519AddrDecoder.DecodeAddr(a[1], ss58_format=a[0])),
     # Taproot output key: [pub_c]
     "taproot_tweak": Func(model=lambda m, a: m.call("taproot_tweak", a[0]),
                           impl=lambda a: __import__("bip_utils.addr.P2TR_addr", fromlist=["_P2TRUtils"])._P2TRUtils.TweakPublicKey(
@@ -172,6 +200,18 @@ def _taproot_direct(a):
     if P2TRAddrDecoder.DecodeAddr(addr, hrp="bc") != want:
         return "P2TR decoder does not return the output key"
     return None
+
+
+def edpub_blake2b(seed32):
+    return ecref.ED25519.pub_rfc8032(seed32, lambda b: hashlib.blake2b(b, digest_size=64).digest())
+
+
+def _substrate_direct(a):
+    try:
+        s = SubstrateEd25519AddrEncoder.EncodeKey(a[1], ss58_format=a[0])
+    except ValueError:
+        return None if (a[0] in (46, 47) or a[0] > 16383) else "SS58 format %d refused" % a[0]
+    return expect(SubstrateEd25519AddrDecoder.DecodeAddr(s, ss58_format=a[0]), a[1], "Substrate")
 
 
 def _wrong_curve(a):
@@ -292,6 +332,32 @@ def generate(ctx):
             if r and r[0] == "ok":
                 for t in [r[1]] + mutate(r[1], rng)[:2]:
                     ctx.run(fn + "_decode", [t], "dec")
+        for fn in ("algo", "nim"):
+            _, r = ctx.run(fn + "_encode", [e], "rand")
+            if r and r[0] == "ok":
+                for t in [r[1], r[1].lower(), r[1].replace(" ", "")] + mutate(r[1], rng)[:3]:
+                    ctx.run(fn + "_decode", [t], "dec")
+        at = rng.choice([48, 48, 144])
+        _, r = ctx.run("xlm_encode", [at, e], "rand")
+        if r and r[0] == "ok":
+            for t in [r[1]] + mutate(r[1], rng)[:3]:
+                ctx.run("xlm_decode", [rng.choice([at, at, 192 - at]), t], "dec")
+        _, r = ctx.run("fil_encode", [c, u], "rand")
+        if r and r[0] == "ok":
+            for t in [r[1], r[1][:2] + r[1][2:].upper(), "f", "f1"] + mutate(r[1], rng)[:3]:
+                ctx.run("fil_decode", [t], "dec")
+        eb = edpub_blake2b((k % 2 ** 256).to_bytes(32, "big"))
+        _, r = ctx.run("nano_encode", [eb], "rand")
+        if r and r[0] == "ok":
+            std, cus = "ABCDEFGHIJKLMNOPQRSTUVWXYZ234567", "13456789abcdefghijkmnopqrstuwxyz"
+            alias = r[1][:5] + "".join((std[cus.index(ch)] if std[cus.index(ch)] not in cus else ch) for ch in r[1][5:])
+            for t in [r[1], alias, r[1].upper()] + mutate(r[1], rng)[:3]:
+                ctx.run("nano_decode", [t], "dec")
+        fmt = rng.choice([0, 2, 42, 63, 64, 65, 127, 128, 255, 256, 1284, 8192, 16383, rng.randrange(16384), 46, 47, 16384])
+        _, r = ctx.run("substrate_encode", [fmt, e], "rand")
+        if r and r[0] == "ok":
+            for t in [r[1]] + mutate(r[1], rng)[:3]:
+                ctx.run("substrate_decode", [rng.choice([fmt, fmt, (fmt + 8192) % 16384]), t], "dec")
         pi = rng.randrange(3)
         _, r = ctx.run("xtz_encode", [pi, e], "rand")
         if r and r[0] == "ok":
